@@ -5,6 +5,7 @@ CONSTANTS
  USizes <- TinyU  VSizes <- TinyV  Pads <- TinyP  FlagSet <- TinyF
  CommonU <- SmallU  CommonV <- SmallV
  FamStreams <- NoValues  FamBase = 3  FamGroups <- NoValues
+ ParkA <- NoValues  ParkB <- NoValues
  Volume = TRUE
  MinSteps = 7  MaxSteps = 7
 CONSTRAINT Emit
